@@ -2,6 +2,7 @@ import RsModel.Model.Tree
 import RsModel.Props.C01
 import RsModel.Lemmas.AttrTree
 import RsModel.Lemmas.ModeCold
+import RsModel.Lemmas.LeavesAttr
 /-!
 # C13 — composition laws: nesting, neutral elements and wrappers change nothing
 -/
@@ -137,5 +138,29 @@ theorem c13_cached_cold (id : Nat) (s : Src) (o : Opts) (σ : Store) (h : σ.get
     ((Src.cached id s).stream o σ).1 = (s.stream o σ).1 ∧ ((Src.cached id s).map o σ).1 = (s.map o σ).1 := by
   simp only [Src.stream, Src.map, h]
   exact ⟨by first | rfl | trivial, by first | rfl | trivial⟩
+
+/-! ## every regrouping at once: only the sequence of leaves matters -/
+
+/-- `leaves` flattens every nesting of ConcatSource (typed or boxed), including single-child wrappers; a child that is an empty
+ConcatSource contributes nothing.  **Two ConcatSource trees with the same sequence of leaves attribute every byte alike in the chunk
+stream** (file name, content, line, column, name) — for leaves that announce before use with one content per file name (`Src.WD`). -/
+theorem c13_same_leaves_stream (cons : Text → Option Text) (a b : Src) (ha : Src.WD cons true a) (hb : Src.WD cons true b)
+    (h : a.leaves = b.leaves) (σ : Store) : a.attr true σ = b.attr true σ :=
+  attr_same_leaves cons a b ha hb h σ
+
+/-- … **and through `map()`**: resolving every position of the (common) text through the two SourceMaps and their own tables gives
+the same file name, original line, original column and name (columns = true; chain C03 ∘ C06) -/
+theorem c13_same_leaves_map (cons : Text → Option Text) (a b : Src) (ha : Src.WD cons true a) (hb : Src.WD cons true b) (h : a.leaves = b.leaves)
+    (hma : a.ModeHypC) (hmb : b.ModeHypC) (hsrc : a.src = b.src) (final : Bool)
+    (hsa : ∀ m ∈ chunkMs (a.stream ⟨true, true⟩ []).1.evs, m.small) (hsb : ∀ m ∈ chunkMs (b.stream ⟨true, true⟩ []).1.evs, m.small)
+    (sma smb : SMap) (h1 : (getMap a ⟨true, final⟩ []).1 = some sma) (h2 : (getMap b ⟨true, final⟩ []).1 = some smb) :
+    (attrFrom (decode sma.mappings) startPos a.src).map (Option.map (resolveMF sma))
+      = (attrFrom (decode smb.mappings) startPos a.src).map (Option.map (resolveMF smb)) :=
+  map_same_leaves cons a b ha hb h hma hmb hsrc final hsa hsb sma smb h1 h2
+
+/-- non-vacuity: boxed nesting, a single-child wrapper and an empty ConcatSource child leave the sequence of leaves unchanged -/
+example : (Src.concat (.cons (.concat (.cons (.orig [97] [102]) (.cons (.rawStr [59]) .nil))) (.cons (.concat .nil) (.cons (.concat (.cons (.orig [98] [103]) .nil)) .nil)))).leaves
+    = (Src.concat (.cons (.orig [97] [102]) (.cons (.rawStr [59]) (.cons (.orig [98] [103]) .nil)))).leaves := by
+  simp [Src.leaves, SrcList.leavesL]
 
 end Rs
